@@ -16,10 +16,6 @@ Sources (statements of the theorems, used as contracts):
   for the rightmost-insertion variant take the inverse picture (swap positions and
   values), i.e. the four side-by-side juxtapositions of two monotone runs.
 """
-import itertools
-
-from . import core as S
-
 INC, DEC = +1, -1
 
 
